@@ -766,6 +766,9 @@ impl Swift {
     /// When using multiple file generation we write this into a separate module vs at the
     /// end of the generated file.
     fn write_codable_file(&self, output_folder: &str) -> std::io::Result<()> {
+        // verification seam (off by default): output-side fs calls go through the simulator
+        #[cfg(typeshare_verif)]
+        use verif_rt::fs;
         let output_string = self.get_codable_contents();
         let output_path = Path::new(output_folder).join("Codable.swift");
 
